@@ -354,22 +354,21 @@ impl Model {
         true
     }
 
-    /// May observer `oid` end (last handle dropped / disallowed) without leaving a bind-built
-    /// node needed while its defining bind is not pinned?
+    /// May observer `oid` end (last handle dropped / disallowed) right now? Not if some observer
+    /// created since the last stabilise still waits to be linked and relies on `oid` to keep the
+    /// defining bind of a node in its cone necessary at that moment (the engine would hit its
+    /// deliberate "defining bind is not necessary" panic). Generation guard only.
     pub fn can_end_observer(&self, oid: usize) -> bool {
-        let roots: Vec<Hid> = self
-            .obs
-            .iter()
-            .enumerate()
-            .filter(|(i, o)| *i != oid && matches!(o.state, OState::Created | OState::InUse))
-            .map(|(_, o)| o.hid)
-            .collect();
-        let nec = self.cone(roots.into_iter());
-        for m in nec {
-            let n = &self.nodes[m];
-            if let Some((b, g)) = n.scope {
-                if !n.invalid && self.nodes[b].gen == Some(g) && !self.pinned(b, Some(oid)) {
-                    return false;
+        for (i, o) in self.obs.iter().enumerate() {
+            if i == oid || o.state != OState::Created {
+                continue;
+            }
+            for m in self.cone(std::iter::once(o.hid)) {
+                let n = &self.nodes[m];
+                if let Some((b, g)) = n.scope {
+                    if !n.invalid && self.nodes[b].gen == Some(g) && !self.pinned(b, Some(oid)) {
+                        return false;
+                    }
                 }
             }
         }
